@@ -1,0 +1,238 @@
+//go:build verif
+
+package UTO311_L0x
+
+// Layout family for property C18 (the codec is generic over message layouts), for the /verif VC
+// generator (govc). Each struct below is a message layout that can be declared with the codec's
+// field tags but is NOT one of the shipped messages: every supported field kind, fields that end
+// on the last byte, pointer variants of the nil-tolerant types, an embedded struct, fixed-value
+// tags written in decimal, hexadecimal and upper-case hexadecimal. The lemma functions are plain
+// client code of Marshal / Unmarshal; the engine verifies them with the reflective codec executed
+// on its real body for these concrete types. Compiled only with -tags verif.
+
+import (
+	"net"
+	"net/netip"
+
+	"github.com/uhppoted/uhppote-core/types"
+)
+
+// integers and booleans, the 16- and 32-bit fields ending on the last byte
+type layoutInts struct {
+	MsgType types.MsgType `uhppote:"value:0x41"`
+	A       uint8         `uhppote:"offset:2"`
+	B       uint16        `uhppote:"offset:3"`
+	C       uint32        `uhppote:"offset:5"`
+	D       bool          `uhppote:"offset:9"`
+	E       uint32        `uhppote:"offset:58"`
+	F       uint16        `uhppote:"offset:62"`
+}
+
+// single bytes on the last byte
+type layoutLast struct {
+	MsgType types.MsgType `uhppote:"value:66"`
+	A       bool          `uhppote:"offset:62"`
+	B       uint8         `uhppote:"offset:63"`
+}
+
+// addresses: IPv4, address:port and raw MAC (the MAC ends on the last byte)
+type layoutAddrs struct {
+	MsgType  types.MsgType    `uhppote:"value:0x43"`
+	IP       net.IP           `uhppote:"offset:8"`
+	AddrPort netip.AddrPort   `uhppote:"offset:12"`
+	MAC      net.HardwareAddr `uhppote:"offset:58"`
+}
+
+// the library's value types, the last one ending on the last byte
+type layoutTypes struct {
+	MsgType      types.MsgType      `uhppote:"value:0X4A"`
+	SerialNumber types.SerialNumber `uhppote:"offset:4"`
+	PIN          types.PIN          `uhppote:"offset:8"`
+	Version      types.Version      `uhppote:"offset:11"`
+	MAC          types.MacAddress   `uhppote:"offset:13"`
+	From         types.HHmm         `uhppote:"offset:19"`
+	To           types.HHmm         `uhppote:"offset:62"`
+}
+
+// dates and times by value
+type layoutDates struct {
+	MsgType  types.MsgType    `uhppote:"value:0x45"`
+	Date     types.Date       `uhppote:"offset:2"`
+	DateTime types.DateTime   `uhppote:"offset:6"`
+	SysDate  types.SystemDate `uhppote:"offset:13"`
+	SysTime  types.SystemTime `uhppote:"offset:16"`
+	Last     types.Date       `uhppote:"offset:60"`
+}
+
+// the nil-tolerant types by pointer
+type layoutPointers struct {
+	MsgType  types.MsgType   `uhppote:"value:0x46"`
+	Date     *types.Date     `uhppote:"offset:8"`
+	DateTime *types.DateTime `uhppote:"offset:12"`
+	Time     *types.HHmm     `uhppote:"offset:62"`
+}
+
+// fixed-value byte tags in hexadecimal and decimal
+type layoutFixed struct {
+	MsgType types.MsgType `uhppote:"value:0x47"`
+	Hex     byte          `uhppote:"offset:8, value:0x55"`
+	Dec     byte          `uhppote:"offset:9, value:16"`
+	Plain   byte          `uhppote:"offset:10"`
+}
+
+// one level of embedding
+type LayoutInner struct {
+	MsgType types.MsgType `uhppote:"value:0x48"`
+	A       uint32        `uhppote:"offset:8"`
+	B       bool          `uhppote:"offset:12"`
+}
+
+type layoutOuter struct {
+	LayoutInner
+	C uint8 `uhppote:"offset:63"`
+}
+
+func lemmaLayoutInts(v layoutInts) (layoutInts, []byte, bool) {
+	var w layoutInts
+
+	b, err := Marshal(v)
+	if err != nil {
+		return w, nil, false
+	}
+
+	if err := Unmarshal(b, &w); err != nil {
+		return w, b, false
+	}
+
+	return w, b, true
+}
+
+func lemmaLayoutLast(v layoutLast) (layoutLast, []byte, bool) {
+	var w layoutLast
+
+	b, err := Marshal(v)
+	if err != nil {
+		return w, nil, false
+	}
+
+	if err := Unmarshal(b, &w); err != nil {
+		return w, b, false
+	}
+
+	return w, b, true
+}
+
+func lemmaLayoutAddrs(v layoutAddrs) (layoutAddrs, []byte, bool) {
+	var w layoutAddrs
+
+	b, err := Marshal(v)
+	if err != nil {
+		return w, nil, false
+	}
+
+	if err := Unmarshal(b, &w); err != nil {
+		return w, b, false
+	}
+
+	return w, b, true
+}
+
+func lemmaLayoutTypes(v layoutTypes) (layoutTypes, []byte, bool) {
+	var w layoutTypes
+
+	b, err := Marshal(v)
+	if err != nil {
+		return w, nil, false
+	}
+
+	if err := Unmarshal(b, &w); err != nil {
+		return w, b, false
+	}
+
+	return w, b, true
+}
+
+func lemmaLayoutDates(v layoutDates) (layoutDates, []byte, bool) {
+	var w layoutDates
+
+	b, err := Marshal(v)
+	if err != nil {
+		return w, nil, false
+	}
+
+	if err := Unmarshal(b, &w); err != nil {
+		return w, b, false
+	}
+
+	return w, b, true
+}
+
+func lemmaLayoutPointers(v layoutPointers) (layoutPointers, []byte, bool) {
+	var w layoutPointers
+
+	b, err := Marshal(v)
+	if err != nil {
+		return w, nil, false
+	}
+
+	if err := Unmarshal(b, &w); err != nil {
+		return w, b, false
+	}
+
+	return w, b, true
+}
+
+func lemmaLayoutFixed(v layoutFixed) (layoutFixed, []byte, bool) {
+	var w layoutFixed
+
+	b, err := Marshal(v)
+	if err != nil {
+		return w, nil, false
+	}
+
+	if err := Unmarshal(b, &w); err != nil {
+		return w, b, false
+	}
+
+	return w, b, true
+}
+
+func lemmaLayoutOuter(v layoutOuter) (layoutOuter, []byte, bool) {
+	var w layoutOuter
+
+	b, err := Marshal(v)
+	if err != nil {
+		return w, nil, false
+	}
+
+	if err := Unmarshal(b, &w); err != nil {
+		return w, b, false
+	}
+
+	return w, b, true
+}
+
+// decoding arbitrary bytes into a layout with fixed-value tags and an embedded struct
+func lemmaDecodeFixed(b []byte) (layoutFixed, error) {
+	var m layoutFixed
+
+	err := Unmarshal(b, &m)
+
+	return m, err
+}
+
+func lemmaDecodeOuter(b []byte) (layoutOuter, error) {
+	var m layoutOuter
+
+	err := Unmarshal(b, &m)
+
+	return m, err
+}
+
+func lemmaDecodeAddrs(b []byte) (layoutAddrs, error) {
+	var m layoutAddrs
+
+	err := Unmarshal(b, &m)
+
+	return m, err
+}
